@@ -188,12 +188,14 @@ func evScratch() string {
 // ---------------------------------------------------------------- index building (child role)
 
 type vfIndexArgs struct {
-	Car     string `json:"car"`
-	IdxDir  string `json:"idx_dir"`
-	TmpDir  string `json:"tmp_dir"`
-	Epoch   uint64 `json:"epoch"`
-	Gsfa    bool   `json:"gsfa"`
-	Network string `json:"network"`
+	Car    string `json:"car"`
+	IdxDir string `json:"idx_dir"`
+	TmpDir string `json:"tmp_dir"`
+	Epoch  uint64 `json:"epoch"`
+	Gsfa   bool   `json:"gsfa"`
+	// PreCancelled: createAllIndexes is given a context that is already cancelled
+	PreCancelled bool   `json:"pre_cancelled,omitempty"`
+	Network      string `json:"network"`
 }
 
 type vfIndexResult struct {
@@ -220,7 +222,12 @@ func init() {
 		if nw == "" {
 			nw = indexes.NetworkMainnet
 		}
-		paths, n, err := createAllIndexes(context.Background(), nw, a.TmpDir, a.Car, a.IdxDir)
+		ictx, icancel := context.WithCancel(context.Background())
+		defer icancel()
+		if a.PreCancelled {
+			icancel()
+		}
+		paths, n, err := createAllIndexes(ictx, nw, a.TmpDir, a.Car, a.IdxDir)
 		if err != nil {
 			return nil, fmt.Errorf("createAllIndexes: %w", err)
 		}
@@ -271,6 +278,12 @@ func vfMakeEpoch(dir string, o cargen.Opts, withGsfa bool) (fx *vfEpochFx, index
 // vfMakeEpochTmp: as vfMakeEpoch with the indexers' scratch directory given (several runs may share one, as
 // several `index` commands started with the same --tmp-dir do).
 func vfMakeEpochTmp(dir string, o cargen.Opts, withGsfa bool, tmpDir string) (fx *vfEpochFx, indexErr string, err error) {
+	return vfMakeEpochOpt(dir, o, withGsfa, tmpDir, false)
+}
+
+// vfMakeEpochOpt: preCancelled runs the indexer with a context that is already cancelled (what a SIGINT that
+// arrives early does to `index all`).
+func vfMakeEpochOpt(dir string, o cargen.Opts, withGsfa bool, tmpDir string, preCancelled bool) (fx *vfEpochFx, indexErr string, err error) {
 	if err := os.MkdirAll(dir, 0o755); err != nil {
 		return nil, "", err
 	}
@@ -280,7 +293,7 @@ func vfMakeEpochTmp(dir string, o cargen.Opts, withGsfa bool, tmpDir string) (fx
 		return nil, "", err
 	}
 	fx.Model = m
-	r := vfRunChild("index", vfIndexArgs{Car: fx.CarPath, IdxDir: filepath.Join(dir, "idx"), TmpDir: tmpDir, Epoch: o.Epoch, Gsfa: withGsfa}, 20*time.Minute)
+	r := vfRunChild("index", vfIndexArgs{Car: fx.CarPath, IdxDir: filepath.Join(dir, "idx"), TmpDir: tmpDir, Epoch: o.Epoch, Gsfa: withGsfa, PreCancelled: preCancelled}, 20*time.Minute)
 	if r.ExitErr != nil && r.Result == nil && r.Err == "" {
 		return fx, "", fmt.Errorf("index child died: %v\n%s", r.ExitErr, r.Output)
 	}
